@@ -1282,22 +1282,21 @@ def gen_memstore():
     cls = find_def(tree, "MemoryStore", (ast.ClassDef,))
     check_methods(cls, ["__init__", "codec_registry"] + [m[0] for m in MEM_METHODS])
     check_body(method(cls, "__init__"), ["self._cache: Dict[PyHash, Any] = {}", "self._paths: Dict[DDSPath, PyHash] = {}"], "MemoryStore.__init__")
-    state = "list (key * blob) * list (dpath * key)"
     defs = []
     for name, params, rty, ctor, _, _ in MEM_METHODS:
-        t = Target("gen_mem_" + name, "(st : " + state + ")", "(" + state + ") * sout", params, rty, "((b, ps), " + ctor + ")", MEM_RULES,
-                   prologue="let '(b, ps) := st in", raise_="((b, ps), RErr)", coq_types=MEM_TYPES,
+        t = Target("gen_mem_" + name, "(st : sstate)", "sstate * sout", params, rty, "(SState b ps, " + ctor + ")", MEM_RULES,
+                   prologue="let b := blobs st in\nlet ps := paths st in", raise_="(SState b ps, RErr)", coq_types=MEM_TYPES,
                    none_values={"blob": "BNone", "unit": "tt"})
         m = method(cls, name)
         m = ast.FunctionDef(name=m.name, args=m.args, body=strip_logs(m.body), decorator_list=m.decorator_list, returns=m.returns, lineno=m.lineno)
         defs.append(translate(t, m, ["self"]))
-    dispatch = "Definition gen_mem_step (st : " + state + ") (o : sop) : (" + state + ") * sout :=\n  match o with\n"
+    dispatch = "Definition gen_mem_step (st : sstate) (o : sop) : sstate * sout :=\n  match o with\n"
     for name, _, _, _, op, args in MEM_METHODS:
         dispatch += f"  | {op} => gen_mem_{name} {args} st\n"
     dispatch += "  end.\n"
     body = GEN_HEADER + "From DDS Require Import Base.Bytes Base.PyRt L4_Eval.Store.\n\n"
     body += "(* dds/store.py : MemoryStore.has_blob / fetch_blob / store_blob / sync_paths / fetch_paths, over the types of L4_Eval/Store.v\n"
-    body += "   (state: b = self._cache, ps = self._paths; DDSException |-> RErr).  Vocabulary:\n" + vocabulary_doc(MEM_RULES) + " *)\n\n"
+    body += "   (state: the record sstate of Store.v, b = self._cache, ps = self._paths; DDSException |-> RErr).  Vocabulary:\n" + vocabulary_doc(MEM_RULES) + " *)\n\n"
     body += MEM_PRELUDE + "\n" + "\n\n".join(defs) + "\n\n(* one constructor of sop per method of the Store interface *)\n" + dispatch
     return body
 
